@@ -99,7 +99,7 @@ def main(argv=None):
     ap.add_argument('--replay')
     ap.add_argument('--unit', action='append')
     ap.add_argument('--keep', action='store_true')
-    ap.add_argument('--solver', default='kissat')
+    ap.add_argument('--solver', default='minisat')
     ap.add_argument('--no-evidence', action='store_true')
     ap.add_argument('--list', action='store_true')
     ap.add_argument('--verbose', '-v', action='store_true')
@@ -148,19 +148,20 @@ def main(argv=None):
             solver = meta.get('solver', args.solver)
             r = R.run_variant(meta, variant, gen_c, wd, PRELUDE, solver=solver)
             rec.update(r)
-            if args.tier == 'thorough' and meta.get('crosscheck', True) and solver == 'kissat' and meta.get('tier') == 'quick':
+            if args.tier == 'thorough' and meta.get('crosscheck', True) and meta.get('tier') == 'quick':
                 # cross-check with the built-in SAT back end (solver disagreement => undecided)
                 try:
                     m2 = dict(meta)
                     m2['timeout'] = int(meta.get('timeout', 300)) * 4
-                    r2 = R.run_variant(m2, variant, gen_c, wd, PRELUDE, solver='minisat')
+                    other = 'minisat' if solver == 'kissat' else 'kissat'
+                    r2 = R.run_variant(m2, variant, gen_c, wd, PRELUDE, solver=other)
                     s1 = {o['name']: o['status'] for o in r['obligations']}
                     s2 = {o['name']: o['status'] for o in r2['obligations']}
-                    rec['crosscheck'] = {'solver': 'minisat', 'seconds': r2['seconds'], 'agree': s1 == s2}
+                    rec['crosscheck'] = {'solver': other, 'seconds': r2['seconds'], 'agree': s1 == s2}
                     if s1 != s2:
                         rec['undecided'] = ('solver-disagreement', str([k for k in s1 if s1.get(k) != s2.get(k)][:5]))
                 except R.Undecided as ex:
-                    rec['crosscheck'] = {'solver': 'minisat', 'undecided': ex.reason}
+                    rec['crosscheck'] = {'solver': 'other', 'undecided': ex.reason}
         except X.ExtractionBroken as ex:
             rec['undecided'] = ('extraction-broke', str(ex))
         except R.Undecided as ex:
@@ -225,6 +226,10 @@ def main(argv=None):
         bad_instr = [o for o in obs if not o['own'] and o['status'] != 'SUCCESS']
         if bad_instr:
             undecided.append((uname, 'tool-error', 'instrumentation obligation failed: ' + bad_instr[0]['name'] + ' ' + bad_instr[0]['description']))
+        for o in own:
+            if o['class'] == 'spec-wellformed' and o['status'] != 'SUCCESS':
+                undecided.append((uname, 'spec-ill-formed', '%s %s at line %s' % (o['name'], o['description'], o['line'])))
+        own = [o for o in own if o['class'] != 'spec-wellformed']
         reach = [o for o in own if o['class'] == 'reach']
         for o in reach:
             if o['status'] != 'FAILURE':
@@ -324,7 +329,7 @@ def main(argv=None):
             'property_id': prop, 'tier': args.tier, 'seed': seed, 'level': 'proof',
             'coverage': {
                 'obligations': tot_ob, 'discharged': tot_dis,
-                'checker_cmd': 'bin/check %s --tier %s  (per unit: goto-cc --function harness; goto-instrument --dfcc harness --enforce-contract F [--replace-call-with-contract G] --apply-loop-contracts; cbmc --external-sat-solver kissat --json-ui)' % (prop, args.tier),
+                'checker_cmd': 'bin/check %s --tier %s  (per unit: goto-cc --function harness; goto-instrument --dfcc harness --enforce-contract F [--replace-call-with-contract G] --apply-loop-contracts; cbmc [--external-sat-solver kissat] --json-ui)' % (prop, args.tier),
                 'trusted_base': TRUSTED_BASE,
                 'units': ev_units,
                 'functions_under_contract': sorted({e['signature'] for u in ev_units + bounded for e in u.get('extracted', [])}),
